@@ -237,6 +237,11 @@ func (m *l0Machine) genVal(rt *rapid.T, r int, label string) sim.Val {
 		}
 		return m.nextTag(r)
 	}
+	if !m.cfg.Tagged && rapid.IntRange(0, 3).Draw(rt, label+".smallpool") == 0 {
+		// three values only: writing the value a key / slot already holds (here or on another replica) is an
+		// operation like any other - its timestamp has to win or lose conflicts as usual
+		return rapid.SampledFrom([]sim.Val{sim.S("v"), sim.S("w"), sim.I(1)}).Draw(rt, label+".small")
+	}
 	if rapid.IntRange(0, 7).Draw(rt, label+".gotyped") == 0 {
 		// every Go value class of the generators (numeric widths, pointers, structs, typed slices and maps,
 		// nil slices / maps, byte slices, fixed-size arrays): what the issuing replica keeps for such a
